@@ -2032,9 +2032,20 @@ def dask_groupby_agg(
             # TODO: we could have `expected_groups` be a dask array with appropriate chunks
             # for now, we have a numpy array that is interpreted as listing all group labels
             # that are present in every chunk
+            if math.prod(array.numblocks[ax] for ax in axis) > 1:
+                raise ValueError(
+                    "method='blockwise' while reindexing every block to `expected_groups` (reindex=True, "
+                    "the default when grouping by a dask array) requires a single block along the reduced axes. "
+                    "Rechunk, or use method='map-reduce'."
+                )
             groups = (expected_groups,)
             group_chunks = ((len(expected_groups),),)
         else:
+            if is_duck_dask_array(by_input):
+                raise ValueError(
+                    "method='blockwise' with reindex=False needs the group labels in memory "
+                    "to find the groups of every block. Use reindex=True or method='map-reduce'."
+                )
             # TODO: use chunks_cohorts here; hard because chunks_cohorts does not include all-NaN blocks
             #       but the array after applying the blockwise op; does. We'd have to insert a subsetting op.
             # Here one input chunk → one output chunks
@@ -2910,6 +2921,14 @@ def groupby_reduce(
         ):
             # reindex=True was requested: it is only compatible with 'map-reduce'
             method = "map-reduce"
+        elif (
+            user_method is None
+            and reindex.blockwise is True
+            and method == "blockwise"
+            and not any_by_dask
+        ):
+            # no chunk function, so only 'blockwise' is possible: every block knows its own groups
+            reindex = ReindexStrategy(blockwise=False, array_type=reindex.array_type)
 
         if not chunks_cohorts and (method == "cohorts" or (user_method is None and method == "blockwise")):
             # none of the requested labels occurs in any block: there is nothing to split into cohorts
@@ -2968,7 +2987,7 @@ def groupby_reduce(
         partial_agg = partial(dask_groupby_agg, **kwargs)
 
         # if preferred method is already blockwise, no need to rechunk
-        if preferred_method != "blockwise" and method == "blockwise" and by_.ndim == 1:
+        if preferred_method != "blockwise" and method == "blockwise" and by_.ndim == 1 and not any_by_dask:
             array = rechunk_for_blockwise(array, axis=-1, labels=by_)
 
         result, groups = partial_agg(
